@@ -296,7 +296,7 @@ static void __attribute__((destructor)) at_process_end(void) {
 static void case_process(vh_rng* r, int nops) {
   fflush(NULL);
   vh_op("child process ops=%d", nops);
-  pid_t pid = fork();
+  pid_t pid = vh_fork();
   if (pid < 0) { vh_info("fork failed"); return; }
   if (pid == 0) {
     is_child = 1;
@@ -317,6 +317,7 @@ static void case_process(vh_rng* r, int nops) {
     vh_violation("C06:teardown:main-thread:objects-left-behind", "objects were not finalised and released when the program exited (child status %d)", WEXITSTATUS(st));
     return;
   }
+  if (VH_CHILD_HUNG(st)) { vh_violation("C06:hang:child-process", "the child process (mutator phase and program-exit teardown) used up its CPU budget without finishing"); return; }
   vh_violation("C06:teardown:main-thread:teardown-crashed", "child ended with raw status 0x%x", st);
 }
 
